@@ -879,7 +879,40 @@ pub(crate) fn weird_reply(rng: &mut Rng, own: u8, a: u8, ilen: usize, ident: u16
         // well-formed diagnostics reply, every flag combination
         1 | 2 | 3 => {
             let mask = rng.below(64) as u8;
-            let extra = if mask & 4 != 0 { rng.bytes_below(9) } else { vec![] };
+            // extended diagnostics: random bytes, or well-formed blocks (device / identifier / channel related)
+            // possibly followed by zero padding or a zero-length block header (findings F5, C05-m3)
+            let extra = if mask & 4 == 0 {
+                vec![]
+            } else if rng.bool() {
+                rng.bytes_below(9)
+            } else {
+                let mut e = vec![];
+                for _ in 0..rng.below(3) {
+                    match rng.below(3) {
+                        0 => {
+                            let n = 1 + rng.below(3) as u8;
+                            e.push(n + 1);
+                            e.extend(rng.bytes(n as usize));
+                        }
+                        1 => {
+                            let n = 1 + rng.below(2) as u8;
+                            e.push(0x40 | (n + 1));
+                            e.extend(rng.bytes(n as usize));
+                        }
+                        _ => {
+                            e.push(0x80 | (rng.u8() & 0x3f));
+                            e.extend(rng.bytes(2));
+                        }
+                    }
+                }
+                match rng.below(4) {
+                    0 => e.extend([0x00, 0x00]),
+                    1 => e.push(0x40),
+                    2 => e.push(0x00),
+                    _ => {}
+                }
+                e
+            };
             format!("data {own} {a} 62 60 r.{state}.{status} {}", hex(&diag_flags_pdu(mask, ident, &extra)))
         }
         // short diagnostics PDU
